@@ -80,15 +80,17 @@ theorem C07_absent_not_rejected_on_the_spot (s : State) (c k v ttl : Nat) (w : I
   · unfold clientPutTtl; split; rfl; simp only []; split; rfl; exact hchk _ _
   · unfold clientPutWTtl; split; rfl; split; rfl; exact hchk _ _
 
-/-- the loop of `create_space` only ever answers Accepted or 'not enough space' -/
+/-- the loop of `create_space` only ever answers Accepted or 'not enough space' (where it answers at all: `overflow` is the
+    worker's panic in `is_space_available_for`) -/
 theorem createLoop_status (t : TinyLFU) (size : Nat) (w : Int) (incEst : Nat) :
     ∀ (fuel : Nat) (a : Adm) (sample : List SKey) (o : Oracle) (ev : List Evicted) (pp : List SKey) (r : LoopResult),
-      createLoop t size w incEst fuel a sample o ev pp = .ok r → r.status = .accepted ∨ r.status = .rejected .noSpace := by
+      createLoop t size w incEst fuel a sample o ev pp = .ok r → r.overflow = false →
+      r.status = .accepted ∨ r.status = .rejected .noSpace := by
   intro fuel
   induction fuel with
   | zero => intro a sample o ev pp r h; simp [createLoop] at h
   | succ n ih =>
-    intro a sample o ev pp r h
+    intro a sample o ev pp r h hov
     unfold createLoop at h
     split at h
     · simp only [Except.ok.injEq] at h; subst h; exact Or.inl rfl
@@ -105,28 +107,32 @@ theorem createLoop_status (t : TinyLFU) (size : Nat) (w : Int) (incEst : Nat) :
             · simp only [Except.ok.injEq] at h; subst h; exact Or.inr rfl
             · simp only [] at h
               split at h
-              · cases h
-              · exact ih _ _ _ _ _ _ h
+              · simp only [Except.ok.injEq] at h; subst h; simp at hov
+              · split at h
+                · cases h
+                · exact ih _ _ _ _ _ _ h hov
 
 theorem maybeAdd_status (t : TinyLFU) (size : Nat) (a : Adm) (id key hash : Nat) (w : Int) (o : Oracle) (r : AdmResult)
-    (h : maybeAdd t size a id key hash w o = .ok r) :
+    (h : maybeAdd t size a id key hash w o = .ok r) (hov : r.overflow = false) :
     r.status = .accepted ∨ r.status = .rejected .noSpace ∨ r.status = .rejected .tooHeavy := by
   unfold maybeAdd at h
   split at h
   · simp only [Except.ok.injEq] at h; subst h; exact Or.inr (Or.inr rfl)
   · split at h
-    · simp only [Except.ok.injEq] at h; subst h; exact Or.inl rfl
+    · simp only [Except.ok.injEq] at h; subst h; simp at hov
     · split at h
-      · cases h
+      · simp only [Except.ok.injEq] at h; subst h; exact Or.inl rfl
       · split at h
         · cases h
         · split at h
           · cases h
-          · rename_i lr hlr
-            simp only [Except.ok.injEq] at h; subst h
-            rcases createLoop_status _ _ _ _ _ _ _ _ _ _ _ hlr with h1 | h1
-            · exact Or.inl h1
-            · exact Or.inr (Or.inl h1)
+          · split at h
+            · cases h
+            · rename_i lr hlr
+              simp only [Except.ok.injEq] at h; subst h
+              rcases createLoop_status _ _ _ _ _ _ _ _ _ _ _ hlr hov with h1 | h1
+              · exact Or.inl h1
+              · exact Or.inr (Or.inl h1)
 
 /-- **…nor by the worker**: for a key that is physically absent when the worker runs the command, the status is
     admission's (Accepted / not enough space / heavier than the cache). -/
@@ -140,7 +146,10 @@ theorem C07_absent_decided_by_admission (s s1 : State) (id hash k v : Nat) (w : 
   split at h
   · cases h
   · rename_i r hr
-    have hst := maybeAdd_status _ _ _ _ _ _ _ _ _ hr
+    split at h
+    · simp at h
+    rename_i hov
+    have hst := maybeAdd_status _ _ _ _ _ _ _ _ _ hr (by simpa using hov)
     split at h
     · rename_i hacc
       cases ttl with
